@@ -44,7 +44,10 @@ out = ["# Seeded breaking changes and the checks that report them", "",
 for r in rows:
     out.append("| %s | %s | %s | %s | %s | %s | %s |" % (r[0], r[1], r[2].replace("|", "/"), r[3], "yes" if r[4] else "NO",
                ", ".join(r[5]) or "**none**", "yes" if r[6] else "**no**"))
-n = len(rows); hit = sum(1 for r in rows if r[5]); tgt = sum(1 for r in rows if r[6])
-out += ["", "%d changes; %d reported by at least one check; %d reported by the check of the property they were written against." % (n, hit, tgt), ""]
+obsolete = [json.load(open(m))["id"] for m in sorted(glob.glob("/verif/seeded/*/meta.json")) if json.load(open(m)).get("obsolete_after_fix")]
+rows_live = [r for r in rows if r[0] not in obsolete]
+n = len(rows_live); hit = sum(1 for r in rows_live if r[5]); tgt = sum(1 for r in rows_live if r[6])
+out += ["", "%d changes (not counting %s, which the repair of finding F6 made harmless: see its meta.json); %d reported by at least one check; %d reported by the check of the property they were written against." % (n, ", ".join(obsolete) or "none", hit, tgt),
+        "", "Rounds: m1-m4 were written in earlier sessions; m5/m6 (\"needs something specific\") and m7/m8 (\"hard to hit: a conjunction of two or three circumstances\") in the last one, by fresh sub-agents given only the property text and the titles of the earlier changes to avoid. The last full pass re-ran, for every change, the check of its target property against the current base of /repo with the final harness (`checklib/seedeval.py`); the `reported by` column also lists other checks from the run in which the change was first evaluated.", ""]
 open("/verif/seeded/README.md", "w").write("\n".join(out))
 print("\n".join(out[-3:]))
